@@ -2,29 +2,331 @@
   Proofs: compound parsing and iteration.
 -/
 import Rtcp.Spec.All
+import Rtcp.Proofs.ReadLemmas
 
 namespace Rtcp.Proofs
 open Rtcp Rtcp.Impl Rtcp.Spec
 
-/-! ## compound parsing (C11) -/
+/-! ## the reference tiling, unfolded -/
 
-/-- accepted exactly when non-empty and the chain of length fields tiles the string -/
-theorem compound_parse_ok_iff (bs : Bytes) (c : Compound) :
-    Compound.parse bs = .ok c ↔ c = ⟨bs, 0, false⟩ ∧ bs ≠ [] ∧ (tiling bs).isSome := by
-  sorry
+theorem lengthField_ge (bs : Bytes) : 4 ≤ lengthField bs := by
+  unfold lengthField; omega
 
-theorem compound_parse_no_panic (bs : Bytes) : Compound.parse bs ≠ .panic := by
-  sorry
+theorem tilingAux_nil (fuel : Nat) : tilingAux fuel [] = some [] := by
+  cases fuel <;> rfl
 
-/-- C18: the errors of compound parsing are truncations with expected > actual -/
-theorem compound_err_truthful (bs : Bytes) (e : ParseError) (h : Compound.parse bs = .err e) :
-    ∃ ex, e = .truncated ex bs.length ∧ bs.length < ex := by
-  sorry
+theorem tilingAux_step (fuel : Nat) (bs : Bytes) (hne : bs ≠ []) :
+    tilingAux (fuel + 1) bs =
+      if bs.length < 4 then none
+      else if bs.length < lengthField bs then none
+      else (tilingAux fuel (bs.drop (lengthField bs))).map (fun ts => bs.take (lengthField bs) :: ts) := by
+  cases bs with
+  | nil => exact absurd rfl hne
+  | cons b bs => rfl
+
+/-- enough fuel is as good as exactly enough -/
+theorem tilingAux_fuel (fuel : Nat) : ∀ (bs : Bytes), bs.length ≤ fuel →
+    tilingAux fuel bs = tilingAux bs.length bs := by
+  induction fuel using Nat.strongRecOn with
+  | ind fuel ih =>
+    intro bs hle
+    by_cases hne : bs = []
+    · subst hne; rw [tilingAux_nil, tilingAux_nil]
+    · have hpos : 0 < bs.length := List.length_pos_iff.mpr hne
+      obtain ⟨f, rfl⟩ : ∃ f, fuel = f + 1 := ⟨fuel - 1, by omega⟩
+      obtain ⟨m, hm⟩ : ∃ m, bs.length = m + 1 := ⟨bs.length - 1, by omega⟩
+      rw [hm, tilingAux_step f bs hne, tilingAux_step m bs hne]
+      by_cases h4 : bs.length < 4
+      · simp only [h4, if_true]
+      · by_cases hn : bs.length < lengthField bs
+        · simp only [hn, if_true, h4, if_false]
+        · simp only [h4, hn, if_false]
+          have hg := lengthField_ge bs
+          have hd : (bs.drop (lengthField bs)).length = bs.length - lengthField bs := List.length_drop
+          rw [ih f (by omega) _ (by omega), ih m (by omega) _ (by omega)]
+
+theorem tiling_nil : tiling [] = some [] := rfl
+
+theorem tiling_step (bs : Bytes) (hne : bs ≠ []) :
+    tiling bs =
+      if bs.length < 4 then none
+      else if bs.length < lengthField bs then none
+      else (tiling (bs.drop (lengthField bs))).map (fun ts => bs.take (lengthField bs) :: ts) := by
+  have hpos : 0 < bs.length := List.length_pos_iff.mpr hne
+  obtain ⟨m, hm⟩ : ∃ m, bs.length = m + 1 := ⟨bs.length - 1, by omega⟩
+  have e : tiling bs = tilingAux (m + 1) bs := by unfold tiling; rw [hm]
+  rw [e, tilingAux_step m bs hne]
+  unfold tiling
+  by_cases h4 : bs.length < 4
+  · simp only [h4, if_true]
+  · by_cases hn : bs.length < lengthField bs
+    · simp only [hn, if_true, h4, if_false]
+    · simp only [h4, hn, if_false]
+      have hg := lengthField_ge bs
+      have hd : (bs.drop (lengthField bs)).length = bs.length - lengthField bs := List.length_drop
+      rw [tilingAux_fuel m _ (by omega)]
+
+theorem tiling_cons (bs : Bytes) (ts : List Bytes) (hne : bs ≠ []) (h : tiling bs = some ts) :
+    4 ≤ bs.length ∧ lengthField bs ≤ bs.length ∧
+    ∃ ts', ts = bs.take (lengthField bs) :: ts' ∧ tiling (bs.drop (lengthField bs)) = some ts' := by
+  rw [tiling_step bs hne] at h
+  split at h
+  · cases h
+  · split at h
+    · cases h
+    · refine ⟨by omega, by omega, ?_⟩
+      cases ht : tiling (bs.drop (lengthField bs)) with
+      | none => rw [ht] at h; cases h
+      | some ts' =>
+        rw [ht] at h
+        simp only [Option.map_some, Option.some.injEq] at h
+        exact ⟨ts', h.symm, rfl⟩
+
+theorem lengthField_take (bs : Bytes) (n : Nat) (h : 4 ≤ n) : lengthField (bs.take n) = lengthField bs := by
+  unfold lengthField
+  simp only [List.getD_eq_getElem?_getD, List.getElem?_take]
+  rw [if_pos (by omega), if_pos (by omega)]
 
 /-- the tiles concatenate to the input and each has its header's length -/
 theorem tiling_sound (bs : Bytes) (ts : List Bytes) (h : tiling bs = some ts) :
     ts.flatten = bs ∧ ∀ t ∈ ts, 4 ≤ t.length ∧ lengthField t = t.length := by
-  sorry
+  induction ts generalizing bs with
+  | nil =>
+    by_cases hne : bs = []
+    · subst hne; simp
+    · obtain ⟨_, _, ts', h1, _⟩ := tiling_cons bs _ hne h
+      cases h1
+  | cons t ts ih =>
+    by_cases hne : bs = []
+    · subst hne; rw [tiling_nil] at h; cases h
+    · obtain ⟨h4, hn, ts', h1, h2⟩ := tiling_cons bs _ hne h
+      cases h1
+      obtain ⟨ihf, iht⟩ := ih _ h2
+      have hg := lengthField_ge bs
+      refine ⟨?_, ?_⟩
+      · rw [List.flatten_cons, ihf, List.take_append_drop]
+      · intro t ht
+        rcases List.mem_cons.mp ht with rfl | ht
+        · rw [lengthField_take bs _ hg, List.length_take, Nat.min_eq_left hn]
+          exact ⟨hg, rfl⟩
+        · exact iht t ht
+
+/-! ## compound parsing (C11) -/
+
+theorem sliceFrom_ok_inv {ε : Type} {d rest : Bytes} {off : Nat}
+    (h : (sliceFrom d off : R ε Bytes) = .ok rest) : rest = d.drop off := by
+  unfold sliceFrom at h
+  split at h <;> cases h
+  rfl
+
+/-- the validation loop either accepts, and the rest of the string tiles, or reports a truncation
+    beyond the end of the string, and the rest does not tile -/
+theorem parseLoop_spec (d : Bytes) (off : Nat) (hle : off ≤ d.length) :
+    (Compound.parseLoop d off = .ok () ∧ (tiling (d.drop off)).isSome = true) ∨
+    (∃ ex, Compound.parseLoop d off = .err (.truncated ex d.length) ∧ d.length < ex ∧
+      tiling (d.drop off) = none) := by
+  fun_induction Compound.parseLoop d off with
+  | case1 off hlt h4 =>
+    right
+    refine ⟨off + 4, rfl, h4, ?_⟩
+    have hne : d.drop off ≠ [] := by
+      intro e; have := congrArg List.length e; simp only [List.length_drop, List.length_nil] at this; omega
+    rw [tiling_step _ hne, if_pos (by simp only [List.length_drop]; omega)]
+  | case2 off hlt h4 rest hs pl hl hpl =>
+    right
+    cases sliceFrom_ok_inv hs
+    have hlen : (d.drop off).length = d.length - off := List.length_drop
+    rw [Read.parseLength_ok _ (by omega)] at hl
+    cases hl
+    refine ⟨_, rfl, hpl, ?_⟩
+    have hne : d.drop off ≠ [] := by
+      intro e; have := congrArg List.length e; simp only [List.length_nil] at this; omega
+    rw [tiling_step _ hne, if_neg (by omega), if_pos (by omega)]
+  | case3 off hlt h4 rest hs pl hl hpl ih =>
+    cases sliceFrom_ok_inv hs
+    have hlen : (d.drop off).length = d.length - off := List.length_drop
+    rw [Read.parseLength_ok _ (by omega)] at hl
+    cases hl
+    have hne : d.drop off ≠ [] := by
+      intro e; have := congrArg List.length e; simp only [List.length_nil] at this; omega
+    rw [tiling_step _ hne, if_neg (by omega), if_neg (by omega), List.drop_drop]
+    rcases ih (by omega) with ⟨h1, h2⟩ | ⟨ex, h1, h2, h3⟩
+    · left
+      refine ⟨h1, ?_⟩
+      rw [Option.isSome_map]; exact h2
+    · right
+      refine ⟨ex, h1, h2, ?_⟩
+      rw [h3]; rfl
+  | case4 off hlt h4 rest hs e hl =>
+    cases sliceFrom_ok_inv hs
+    have hlen : (d.drop off).length = d.length - off := List.length_drop
+    rw [Read.parseLength_ok _ (by omega)] at hl
+    cases hl
+  | case5 off hlt h4 rest hs hl =>
+    cases sliceFrom_ok_inv hs
+    have hlen : (d.drop off).length = d.length - off := List.length_drop
+    rw [Read.parseLength_ok _ (by omega)] at hl
+    cases hl
+  | case6 off hlt h4 e hs =>
+    unfold sliceFrom at hs; rw [if_pos hle] at hs; cases hs
+  | case7 off hlt h4 hs =>
+    unfold sliceFrom at hs; rw [if_pos hle] at hs; cases hs
+  | case8 off hge =>
+    left
+    have : d.drop off = [] := List.drop_eq_nil_of_le (by omega)
+    rw [this]
+    exact ⟨rfl, rfl⟩
+
+theorem compound_parse_cases (bs : Bytes) :
+    (bs ≠ [] ∧ Compound.parse bs = .ok ⟨bs, 0, false⟩ ∧ (tiling bs).isSome = true) ∨
+    (∃ ex, Compound.parse bs = .err (.truncated ex bs.length) ∧ bs.length < ex ∧
+      (bs = [] ∨ tiling bs = none)) := by
+  unfold Compound.parse
+  cases bs with
+  | nil => right; exact ⟨4, rfl, by simp, .inl rfl⟩
+  | cons b bs =>
+    simp only [List.isEmpty_cons, Bool.false_eq_true, if_false]
+    rcases parseLoop_spec (b :: bs) 0 (Nat.zero_le _) with ⟨h1, h2⟩ | ⟨ex, h1, h2, h3⟩
+    · left
+      rw [h1]
+      exact ⟨by simp, rfl, h2⟩
+    · right
+      rw [h1]
+      exact ⟨ex, rfl, h2, .inr h3⟩
+
+/-- accepted exactly when non-empty and the chain of length fields tiles the string -/
+theorem compound_parse_ok_iff (bs : Bytes) (c : Compound) :
+    Compound.parse bs = .ok c ↔ c = ⟨bs, 0, false⟩ ∧ bs ≠ [] ∧ (tiling bs).isSome := by
+  rcases compound_parse_cases bs with ⟨h1, h2, h3⟩ | ⟨ex, h1, h2, h3⟩
+  · rw [h2]
+    constructor
+    · intro h; cases h; exact ⟨rfl, h1, h3⟩
+    · rintro ⟨rfl, _, _⟩; rfl
+  · rw [h1]
+    constructor
+    · intro h; cases h
+    · rintro ⟨_, hne, hs⟩
+      rcases h3 with h3 | h3
+      · exact absurd h3 hne
+      · rw [h3] at hs; cases hs
+
+theorem compound_parse_no_panic (bs : Bytes) : Compound.parse bs ≠ .panic := by
+  rcases compound_parse_cases bs with ⟨h1, h2, h3⟩ | ⟨ex, h1, h2, h3⟩
+  · rw [h2]; intro h; cases h
+  · rw [h1]; intro h; cases h
+
+/-- C18: the errors of compound parsing are truncations with expected > actual -/
+theorem compound_err_truthful (bs : Bytes) (e : ParseError) (h : Compound.parse bs = .err e) :
+    ∃ ex, e = .truncated ex bs.length ∧ bs.length < ex := by
+  rcases compound_parse_cases bs with ⟨h1, h2, h3⟩ | ⟨ex, h1, h2, h3⟩
+  · rw [h2] at h; cases h
+  · rw [h1] at h; cases h; exact ⟨ex, rfl, h2⟩
+
+theorem next_step {ε : Type} (bs : Bytes) (off : Nat) (h4 : 4 ≤ (bs.drop off).length)
+    (hn : lengthField (bs.drop off) ≤ (bs.drop off).length)
+    (hnp : Packet.parse ((bs.drop off).take (lengthField (bs.drop off))) ≠ .panic) :
+    (Compound.next ⟨bs, off, false⟩ : R ε _) =
+      .ok (some (Packet.parse ((bs.drop off).take (lengthField (bs.drop off))), off),
+        ⟨bs, off + lengthField (bs.drop off),
+          !(Packet.parse ((bs.drop off).take (lengthField (bs.drop off)))).isOk ||
+            decide (off + lengthField (bs.drop off) ≥ bs.length)⟩) := by
+  have hlen : (bs.drop off).length = bs.length - off := List.length_drop
+  unfold Compound.next
+  simp only [Bool.false_eq_true, if_false]
+  have hs : (sliceFrom bs off : R ε Bytes) = .ok (bs.drop off) := by
+    unfold sliceFrom; rw [if_pos (by omega)]
+  rw [hs]
+  simp only [R.ok_bind, Read.parseLength_ok _ h4]
+  have ht : (slice bs off (off + lengthField (bs.drop off)) : R ε Bytes) =
+      .ok ((bs.drop off).take (lengthField (bs.drop off))) := by
+    unfold slice
+    rw [if_pos ⟨by omega, by omega⟩, List.drop_take]
+    congr 2
+    omega
+  rw [ht]
+  simp only [R.ok_bind]
+  generalize Packet.parse ((bs.drop off).take (lengthField (bs.drop off))) = res at hnp ⊢
+  cases res with
+  | ok p => rfl
+  | err e => rfl
+  | panic => exact absurd rfl hnp
+
+theorem collect_over {ε : Type} (fuel : Nat) (c : Compound) (h : c.isOver = true)
+    (acc : List (R ParseError Packet × Nat)) :
+    (Compound.collect (fuel + 1) c acc : R ε _) = .ok (acc, true, c) := by
+  unfold Compound.collect
+  unfold Compound.next
+  rw [if_pos h]
+
+theorem collect_step {ε : Type} (fuel : Nat) (c c' : Compound) (it : R ParseError Packet × Nat)
+    (acc : List (R ParseError Packet × Nat)) (h : (Compound.next c : R ε _) = .ok (some it, c')) :
+    (Compound.collect (fuel + 1) c acc : R ε _) = Compound.collect fuel c' (acc ++ [it]) := by
+  conv => lhs; unfold Compound.collect
+  rw [h]
+
+theorem collect_spec {ε : Type} (bs : Bytes) : ∀ (ts : List Bytes) (off fuel : Nat)
+    (acc : List (R ParseError Packet × Nat)),
+    off < bs.length → tiling (bs.drop off) = some ts → (∀ t ∈ ts, Packet.parse t ≠ .panic) →
+    ts.length < fuel →
+    ∃ items c', (Compound.collect fuel ⟨bs, off, false⟩ acc : R ε _) = .ok (acc ++ items, true, c') ∧
+      items.map (·.1) = throughFirstErr (ts.map Packet.parse) ∧
+      items.length ≤ ts.length ∧ c'.isOver = true := by
+  intro ts
+  induction ts with
+  | nil =>
+    intro off fuel acc hlt ht _ _
+    have hne : bs.drop off ≠ [] := by
+      intro e; have := congrArg List.length e
+      simp only [List.length_drop, List.length_nil] at this; omega
+    obtain ⟨_, _, ts', h1, _⟩ := tiling_cons _ _ hne ht
+    cases h1
+  | cons t ts ih =>
+    intro off fuel acc hlt ht hnp hf
+    have hlen : (bs.drop off).length = bs.length - off := List.length_drop
+    have hne : bs.drop off ≠ [] := by
+      intro e; have := congrArg List.length e
+      simp only [List.length_nil] at this; omega
+    obtain ⟨h4, hn, ts', h1, h2⟩ := tiling_cons _ _ hne ht
+    cases h1
+    have hg := lengthField_ge (bs.drop off)
+    simp only [List.length_cons] at hf
+    obtain ⟨f, rfl⟩ : ∃ f, fuel = f + 2 := ⟨fuel - 2, by omega⟩
+    have hnp0 := hnp _ (List.mem_cons_self)
+    have hstep := next_step (ε := ε) bs off h4 hn hnp0
+    rw [collect_step (f + 1) _ _ _ acc hstep]
+    rw [List.drop_drop] at h2
+    simp only [List.map_cons]
+    generalize hres : Packet.parse ((bs.drop off).take (lengthField (bs.drop off))) = res at hnp0 ⊢
+    cases res with
+    | panic => exact absurd rfl hnp0
+    | err e =>
+      have hov : (!(R.err e : R ParseError Packet).isOk ||
+          decide (off + lengthField (bs.drop off) ≥ bs.length)) = true := by simp [R.isOk]
+      rw [hov]
+      refine ⟨[(.err e, off)], ⟨bs, off + lengthField (bs.drop off), true⟩, ?_, rfl, by simp, rfl⟩
+      rw [collect_over f _ rfl]
+    | ok p =>
+      by_cases hend : off + lengthField (bs.drop off) ≥ bs.length
+      · have hov : (!(R.ok p : R ParseError Packet).isOk ||
+            decide (off + lengthField (bs.drop off) ≥ bs.length)) = true := by simp [hend]
+        rw [hov]
+        refine ⟨[(.ok p, off)], ⟨bs, off + lengthField (bs.drop off), true⟩, ?_, ?_, by simp, rfl⟩
+        · rw [collect_over f _ rfl]
+        · have hnil : bs.drop (off + lengthField (bs.drop off)) = [] := List.drop_eq_nil_of_le hend
+          rw [hnil, tiling_nil] at h2
+          cases h2
+          rfl
+      · have hd : (!(R.ok p : R ParseError Packet).isOk ||
+            decide (off + lengthField (bs.drop off) ≥ bs.length)) = false := by
+          simp [R.isOk, hend]
+        rw [hd]
+        obtain ⟨items, c', e1, e2, e3, e4⟩ := ih (off + lengthField (bs.drop off)) (f + 1)
+          (acc ++ [(.ok p, off)]) (by omega) h2 (fun t ht => hnp t (List.mem_cons_of_mem _ ht))
+          (by omega)
+        refine ⟨(.ok p, off) :: items, c', ?_, ?_, ?_, e4⟩
+        · rw [e1, List.append_assoc]; rfl
+        · simp only [List.map_cons, throughFirstErr, e2]
+        · simp only [List.length_cons]; omega
 
 /-- iterating an accepted compound yields, in order, exactly what the generic parser returns for
     each tile, stopping after the first failing tile (yielding that error); never more items than
@@ -34,11 +336,15 @@ theorem compound_iter {ε : Type} (bs : Bytes) (ts : List Bytes) (hne : bs ≠ [
     ∃ items c', (Compound.collect fuel ⟨bs, 0, false⟩ [] : R ε _) = .ok (items, true, c') ∧
       items.map (·.1) = throughFirstErr (ts.map Packet.parse) ∧
       items.length ≤ ts.length ∧ c'.isOver = true := by
-  sorry
+  have hpos : 0 < bs.length := List.length_pos_iff.mpr hne
+  obtain ⟨items, c', e1, e2, e3, e4⟩ :=
+    collect_spec (ε := ε) bs ts 0 fuel [] hpos (by rw [List.drop_zero]; exact ht) hnp hf
+  exact ⟨items, c', by rw [e1, List.nil_append], e2, e3, e4⟩
 
 /-- once finished, `next` keeps returning end-of-iteration and the state does not change -/
 theorem compound_fused {ε : Type} (c : Compound) (h : c.isOver = true) :
     (Compound.next c : R ε _) = .ok (none, c) := by
-  sorry
+  unfold Compound.next
+  rw [if_pos h]
 
 end Rtcp.Proofs
